@@ -116,11 +116,11 @@ func run[K comparable](r *engine.Rec, c *cfg[K]) {
 			case "MakeFromSequenceOfMap":
 				src := M().MakeFromArray(as)
 				m = M().MakeFromSequence(src)
-				guardSrc, guardDump = src, dump.Dump(src)
+				guardSrc, guardDump = src, common.View(src)
 			case "MakeFromSequenceOfCatalog":
 				src := col.Catalog[K, int](common.N()).MakeFromArray(as)
 				m = M().MakeFromSequence(src)
-				guardSrc, guardDump = src, dump.Dump(src)
+				guardSrc, guardDump = src, common.View(src)
 			}
 		})
 		return
@@ -275,7 +275,6 @@ func run[K comparable](r *engine.Rec, c *cfg[K]) {
 			apply(p, m, g)
 			rt.Protect(fuel, func() { m.AsArray(); m.GetKeys(); m.GetSize(); m.GetIterator() })
 		}
-		before := dump.Dump(m)
 		res, want, o := apply(op, m, g)
 		after := dump.Dump(m)
 		if o.Fuel {
@@ -288,16 +287,10 @@ func run[K comparable](r *engine.Rec, c *cfg[K]) {
 		if want != nil && !reflect.DeepEqual(res, want) {
 			return viol(op.K+" wrong result", fmt.Sprintf("got %v want %v", res, want))
 		}
-		switch op.K {
-		case "GetValue", "GetValues", "Observe":
-			if before != after {
-				return viol(op.K+" (a query) changes the private state", "")
-			}
-		}
 		if st, ok := coherent(m, g, "after "+op.K); !ok {
 			return st
 		}
-		if guardSrc != nil && dump.Dump(guardSrc) != guardDump {
+		if guardSrc != nil && common.View(guardSrc) != guardDump {
 			return viol(op.K+" on a map built from another collection changes that collection (shared storage)", fmt.Sprint(path[0]))
 		}
 		if len(r.Samples) < 2 && len(path) >= 2 {
